@@ -5,7 +5,13 @@
    (harness/c10_driver.py).  For every stripe and every axis TLC evaluates the oracle of Stripes.tla; at the end
    of a case the OFM boxes of every operator must partition the volume it writes.
 
-   Events:  {"t", "e":"Hdr", "n", "ops":[{"cls","sp","up","pt","i2":[h,w,c] | [], "ax":{"H":{I,ro,rl,wo,O,k,d,s,ep}, "W":.., "C":..}} ..]}
+   The same specification validates stripes decoded from COMPILED command streams (c10.validate_compiled): there the
+   OFM positions and the IFM start come from the logical command, the OFM extents, the IFM extents (the extent the
+   hardware derives, A-HW4) and the pads from the decoded registers; "model" is FALSE (no transcription drift).
+
+   Events:  {"t", "e":"Hdr", "n", "model", "ops":[{"cls","sp","up","pt","chk","full","i2":[h,w,c] | [], "ax":{"H":{I,ro,rl,wo,O,k,d,s,ep}, "W":.., "C":..}} ..]}
+            chk  = FALSE: the operator reads through edge-replicating tiles or another mechanism outside the oracle: only Partition
+            full = TRUE : the operator must write its whole volume (FALSE: it feeds a rolling buffer and must tile a prefix of the rows)
             {"t", "e":"S", "q", "op", "first", "last", "H":[a,b,c,e,pb,pa], "W":[..], "C":[..], "b2":[[c,e] x3] | []}
             {"t", "e":"End"}
    viol  : <<t, q, op, axis, clause>>      property violations (the verdict)
@@ -36,10 +42,10 @@ Fail2(o, e, i) ==
     IN IF bcast THEN (IF w[1] = 0 /\ w[2] = 1 THEN {} ELSE {"Covers2"})
        ELSE (IF w[1] = v[1] - x.wo /\ w[2] = v[2] - x.wo /\ w[2] <= ext THEN {} ELSE {"Covers2"})
 
-StripeViol(o, e) ==
+StripeViol(o, e) == IF ~o.chk THEN {} ELSE
     UNION { { <<e.t, e.q, e.op, Axes[i], f>> : f \in Failing(Param(o, Axes[i]), RecOf(e[Axes[i]])) } : i \in 1..3 }
     \cup (IF Len(e.b2) = 3 THEN UNION { { <<e.t, e.q, e.op, Axes[i], f>> : f \in Fail2(o, e, i) } : i \in 1..3 } ELSE {})
-StripeDrift(o, e) ==
+StripeDrift(o, e) == IF ~(o.chk /\ hdr.model) THEN {} ELSE
     { <<e.t, e.q, e.op, Axes[i]>> : i \in { j \in 1..3 :
         LET p == Param(o, Axes[j])  r == RecOf(e[Axes[j]])
         IN Code(p, r.a, r.b, e.first, e.last) # r } }
@@ -58,11 +64,11 @@ Partition3(s, vol) ==
    pulled as far as its consumer needs (generate_high_level_commands_for_sched_op never drains the producer), so its
    stripes must tile a prefix of the rows - that every row read was produced is CascadeTrace's ReadBeforeProduced *)
 VolFor(j) == LET v == VolOf(hdr.ops[j]) IN
-             IF j = Len(hdr.ops) \/ Len(boxes[j]) = 0 THEN v
+             IF hdr.ops[j].full \/ Len(boxes[j]) = 0 THEN v
              ELSE << <<v[1][1], MaxOf({ boxes[j][i][1][2] : i \in 1..Len(boxes[j]) })>>, v[2], v[3] >>
 EndViol(t) == { <<t, -1, i - 1, "HWC", "Partition">> : i \in { j \in 1..Len(hdr.ops) : ~Partition3(boxes[j], VolFor(j)) } }
 
-NoHdr == [t |-> -1, ops |-> <<>>]
+NoHdr == [t |-> -1, ops |-> <<>>, model |-> TRUE]
 Init == l = 1 /\ viol = {} /\ drift = {} /\ hdr = NoHdr /\ boxes = <<>>
 
 Next == /\ l <= Len(Trace)
